@@ -304,8 +304,43 @@ pub fn random_history_for_lanes(rng: &mut Rng, universe: usize, len: usize) -> V
     ops
 }
 
+/// Adversarial history: binomial trees built by repeatedly uniting classes of equal rank (deepest
+/// possible forest for union by rank), then finds on the deepest leaves through clones and directly.
+fn binomial_history(rng: &mut Rng, universe: usize) -> Vec<Op> {
+    let mut ops = vec![];
+    let i = rng.below(INSTANCES);
+    let mut perm: Vec<usize> = (0..universe).collect();
+    rng.shuffle(&mut perm);
+    let mut step = 1;
+    while step < universe {
+        let mut k = 0;
+        while k + step < universe {
+            // pick arbitrary members of the two blocks, in either order
+            let a = perm[k + rng.below(step)];
+            let b = perm[k + step + rng.below(step.min(universe - k - step))];
+            ops.push(if rng.chance(1, 2) { Op::Unite(i, a, b) } else { Op::Unite(i, b, a) });
+            k += 2 * step;
+        }
+        if rng.chance(1, 3) {
+            ops.push(Op::QueryClone(i));
+        }
+        step *= 2;
+    }
+    ops.push(Op::CloneTo(i, (i + 1) % INSTANCES));
+    for _ in 0..6 {
+        ops.push(Op::Find(i, perm[rng.below(universe)]));
+    }
+    ops.push(Op::QueryAll(i));
+    ops.push(Op::QueryAll((i + 1) % INSTANCES));
+    ops.push(Op::Classes(i, random_list(rng, universe)));
+    ops
+}
+
 fn random_history(rng: &mut Rng, universe: usize, len: usize) -> Vec<Op> {
     let mut ops = vec![];
+    if rng.chance(1, 8) {
+        return binomial_history(rng, universe);
+    }
     let mode = rng.below(3);
     let mut k = 0;
     while k < len {
